@@ -1,12 +1,16 @@
 """C19 - Expect: 100-continue is answered correctly and the request is never lost.
 
 Pipelines mixing expecting and plain requests, segmentations at message-part
-granularity, all under the deterministic scheduler on the real server; TLC
-judges the traces with the monitor clauses P19_* of spec/Pipeline.tla."""
+granularity.  spec/Channel.tla (received / service / send_continue at
+visible-operation granularity) is model-checked for InterimPlacement,
+ResponsesInOrder and ClientNotLeftWaiting; executions of the real server under
+the deterministic scheduler are validated step by step against it, and TLC
+judges their observable traces with the monitor clauses P19_* of
+spec/Pipeline.tla."""
 from checks import chan_common as cc
 from checks import chan_model
 
-LEVEL = "exploration"
+LEVEL = "model_checking"
 
 
 def scenarios(thorough):
@@ -31,7 +35,7 @@ def scenarios(thorough):
 
 def run(chk, replay=None):
     scns = scenarios(chk.thorough)
-    chan_model.model_check(chk, "C19")
+    chan_model.model_check(chk, "C19", scns)
     n_pct, dfs = (800, 3000) if chk.thorough else (80, 400)
     cc.explore_and_validate(chk, "C19", scns, n_pct, dfs, bound=2, label="continue")
     chk.rule = ("cases = schedules of the real server over %d pipelines mixing expecting and plain requests (waiting clients, head/body segmentation, lookahead 0..2); "
